@@ -60,12 +60,25 @@ type DSock struct {
 	closed chan struct{}
 	once   sync.Once
 	WithCM bool
+	srcAs  *net.UDPAddr // source address of outgoing datagrams when the socket is bound to the wildcard address
 }
 
 func (n *DNet) Socket(laddr, raddr *net.UDPAddr) *DSock {
 	s := &DSock{n: n, laddr: laddr, raddr: raddr, inbox: make(chan *Dgram, 1024), closed: make(chan struct{})}
 	n.mu.Lock()
 	n.socks[laddr.String()] = s
+	n.mu.Unlock()
+	return s
+}
+
+// WildcardSocket is a socket bound to 0.0.0.0:port that is reachable under reach (the concrete address peers send
+// to, reported to the reader in the control message) and whose datagrams leave with reach as their source.
+func (n *DNet) WildcardSocket(reach *net.UDPAddr) *DSock {
+	s := n.Socket(&net.UDPAddr{IP: net.IPv4zero, Port: reach.Port}, nil)
+	s.srcAs = reach
+	s.WithCM = true
+	n.mu.Lock()
+	n.socks[reach.String()] = s
 	n.mu.Unlock()
 	return s
 }
@@ -132,7 +145,11 @@ func (s *DSock) WriteTo(b []byte, _ *coapNet.ControlMessage, dst net.Addr) (int,
 			return 0, err
 		}
 	}
-	s.n.Inject(s.laddr, ua, b)
+	src := s.laddr
+	if s.srcAs != nil {
+		src = s.srcAs
+	}
+	s.n.Inject(src, ua, b)
 	return len(b), nil
 }
 
@@ -392,4 +409,13 @@ func SimUDPConfig(firstMID int32) udpClient.Config {
 	cfg.MessagePool = pool.New(0, 0)
 	cfg.Errors = nil
 	return cfg
+}
+
+// UDPAddrFrom parses "ip:port" (panics on nonsense: harness-internal use only).
+func UDPAddrFrom(s string) *net.UDPAddr {
+	a, err := net.ResolveUDPAddr("udp", s)
+	if err != nil {
+		panic(err)
+	}
+	return a
 }
